@@ -1326,6 +1326,9 @@ def str_to_man_exp(x, base=10):
         a, b = parts[0], parts[1].rstrip('0')
         exp -= len(b)
         x = a + b
+    if x in ('', '+', '-'):
+        # zero written without integer digits, such as '.0' or '-.000'
+        x += '0'
     x = MPZ(int(x, base))
     return x, exp
 
